@@ -15,7 +15,7 @@ CONSTANTS
   LogSched = FALSE
   KeepLog = FALSE
   OpMenu <- MenuCluster
-  EditMenu <- EditsSome
+  EditMenu <- EditsSomeNew
   PreMenu <- PreOwn
   Objs <- AllObjs
   MenuGuard <- GuardBias
